@@ -69,7 +69,7 @@ def gen_call(lib, k, call):
         if kd == "val":
             actual.append(lit(args[n], T))
         elif kd == "fnptr":
-            actual.append("vf_cb3")
+            actual.append(ir.FNPTR_SIGS[p.get("sig", "i")]["cb"])
         elif kd == "implied":
             actual.append("(%s)%d" % (ir.TYPES[T]["c"], len(args[p["of"]])))
         elif kd in ("cls_cptr", "cls_cref", "cls_ref"):
@@ -171,7 +171,8 @@ def gen_driver(lib, plan, headers):
     for h in headers:
         L.append('#include "%s"' % h)
     # the driver logs to stdout, the library to the file named by VF_TRACE
-    L += ["#define VF_TRACE_STDOUT 1", '#include "vf_trace.h"', "void vf_mark(int k);", "static int vf_cb3(int i) { return 3 * i + 1; }", "int main(void) {"]
+    L += ["#define VF_TRACE_STDOUT 1", '#include "vf_trace.h"', "void vf_mark(int k);", "static int vf_cb3(int i) { return 3 * i + 1; }", "static double vf_cbd(double x) { return 2 * x + 0.25; }",
+         "static long vf_cbl(int i, double x) { return 100L * i + (long)(2 * x); }", "int main(void) {"]
     objs = sorted({c["obj"] for c in plan if c.get("obj")})
     for o in objs:
         cls = next(c["cls"] for c in plan if c.get("obj") == o)
